@@ -106,8 +106,13 @@ class C05(Spec):
         "np.random.shuffle may return any permutation (the simulator picks it)",
         "a clean batch is evidence, not proof (seeded sampling of histories)",
     ]
-    budgets = {"quick": {"wall": 40, "max_runs": 10 ** 9, "chunk": 100},
-               "thorough": {"wall": 900, "max_runs": 10 ** 9, "chunk": 100}}
+    budgets = {"quick": {"wall": 40, "max_runs": 10 ** 9, "chunk": 25},
+               "thorough": {"wall": 900, "max_runs": 10 ** 9, "chunk": 25}}
+
+    def wants_py(self, plan):
+        # long chains are O(n^2) to build; interpreted they would eat the whole budget
+        nbox = sum(len(op.get("boxes", ())) for op in plan["ops"] if op["op"] == "ins")
+        return nbox <= 150 and super().wants_py(plan)
 
 
 class KSpec(Spec):
